@@ -34,7 +34,7 @@ func init() {
 		},
 		Plan: func(tier string) fw.Plan {
 			if tier == "thorough" {
-				return fw.Plan{Shards: 16, CasesPerShard: 20000, TimeoutSec: 3000}
+				return fw.Plan{Shards: 48, CasesPerShard: 20000, Parallel: 16, TimeoutSec: 3000}
 			}
 			return fw.Plan{Shards: 16, CasesPerShard: 500, TimeoutSec: 900}
 		},
@@ -45,7 +45,7 @@ func init() {
 func refLeaves() []*gen.Leaf {
 	// reference content weighted up: every CapRef leaf twice, others once
 	var out []*gen.Leaf
-	for _, l := range gen.Leaves {
+	for _, l := range gen.AllLeaves {
 		out = append(out, l)
 		if l.Caps&gen.CapRef != 0 {
 			out = append(out, l, l)
@@ -65,11 +65,26 @@ func runC02(w *fw.Worker) {
 }
 
 func c02Compose(w *fw.Worker, i int, r *fw.Rand) {
-	o := gen.GenOpts{MaxDepth: w.Pick(3, 4) - r.Intn(2), MaxFields: r.Range(2, 7), SkipPct: r.Range(0, 20), StructPct: r.Range(10, 40), Leaves: refLeaves(), InitialismPct: 10}
+	o := gen.GenOpts{MaxDepth: w.Pick(3, 4) - r.Intn(2), MaxFields: r.Range(2, 7), SkipPct: r.Range(0, 20), StructPct: r.Range(10, 40), Leaves: refLeaves(), InitialismPct: 10, HollowPct: 5}
 	spec := gen.RandomSpec(r, o)
 	c := &gen.Counter{}
-	leaves := spec.LeafRefs()
+	allLeaves := spec.LeafRefs()
 	defaults := spec.RandomDefaults(r, c, r.Range(30, 90))
+	// interface-typed leaves: per case either the defaults hold them (the pointerified type then devirtualises the
+	// field, so no layer sets it) or only layers set them (nil default keeps the field an interface)
+	anyInDefaults := r.Bool()
+	var leaves []*gen.LeafRef
+	for _, lr := range allLeaves {
+		if lr.Leaf().Leaf.Caps&gen.CapIface != 0 {
+			if anyInDefaults {
+				continue
+			}
+			if fv := leafValue(defaults, lr); fv.IsValid() && fv.CanSet() {
+				fv.Set(reflect.Zero(fv.Type()))
+			}
+		}
+		leaves = append(leaves, lr)
+	}
 	defPtr := reflect.New(spec.Type())
 	defPtr.Elem().Set(defaults)
 	ptrType := ptrify.Pointerify(spec.Type(), defPtr.Elem())
